@@ -102,6 +102,10 @@ def full_config(rng, nservers=1, nodeid=None, minimal=False, drop=(), tmrnum=Non
                 cob |= 0x80000000
             gen.add_tpdo(cfg, c, cob, rng.choice([0, 1, 3, 240, 254, 255, 254, 255]),
                          rng.choice([0, 0, 10, 100, 1000]), rng.choice([0, 0, 5, 50, 500]), maps)
+    if rng.random() < 0.15 and "18xx" not in drop and "14xx" not in drop:
+        # a device profile with more PDO records than the stack is built for (CO_TPDO_N = CO_RPDO_N = 4): the records are plain values
+        gen.add_tpdo(cfg, 4, 0x40000190, rng.choice([1, 254, 255]), 0, rng.choice([0, 5]), [gen.maplink(0x2000, 0, 8)])
+        gen.add_rpdo(cfg, 4, 0x210, rng.choice([1, 255]), [gen.maplink(0x2000, 1, 16)])
     cfg.finalize()
     return cfg
 
